@@ -46,3 +46,23 @@ Theorem C05_logic8_predicts_wave : forall delays cap ops (e : wenv) (e8 : nat ->
   (forall k, KV.Proofs.WaveCircuit.predicts (e k) (e8 k)) ->
   forall k, KV.Proofs.WaveCircuit.predicts (wexec delays cap ops e k) (cexec ops e8 k).
 Proof. exact KV.Proofs.WaveCircuit.logic8_predicts_wave. Qed.
+
+(** MEMORY LEVEL, all four c_reuse x strip_forks combinations (Proofs/WaveSimGlue.v): the waveform behind every entry that the
+    compared timing-simulator model captures is predicted by the 8-valued logic simulation of the netlist's op list -- in
+    particular where logic simulation reports a plain 0/1 the captured waveform has no transition *)
+From KV Require Import Model.Netlist Model.NetlistWf Model.WaveSimModel Model.WaveAcc Model.WaveGlue.
+From KV Require Model.CycleSem Proofs.EndToEnd Proofs.ReuseStrip Proofs.LogicSimGlue Proofs.WaveSimGlue.
+Theorem C05_wavesim_model_predicted : forall c caps reuse strip delays actrl abuf_len s extra tcap,
+  wf_netlist c -> comb_acyclic c -> KV.Proofs.EndToEnd.gates_known c -> List.length (c_lines c) <= List.length caps ->
+  KV.Proofs.WaveSimGlue.extra_ok c extra ->
+  KV.Proofs.WaveSimGlue.wave_inputs_ok c (dl_of delays) (stim_wave s extra) ->
+  (strip = true -> build_stems c true (KV.Proofs.LogicSimGlue.std_len c) <> None /\ KV.Proofs.ReuseStrip.forks_ok c /\
+     KV.Proofs.WaveSimGlue.forks_single c /\
+     KV.Proofs.WaveSimGlue.strip_side c (dl_of delays) (lcap (List.length (c_lines c)) caps)
+        (wexec (dl_of delays) (lcap (List.length (c_lines c)) caps) (build_ops c false) (wenv0 c s extra))) ->
+  forall e8 : nat -> code, (forall k, KV.Proofs.WaveCircuit.predicts (wenv0 c s extra k) (e8 k)) ->
+  exists r, wsim_case c caps reuse strip delays actrl abuf_len s extra tcap = Some r /\
+    forall p l0, KV.Model.CycleSem.snode_in c p = Some l0 ->
+      exists w, nth p (w_capt r) None = Some (six (capture w tcap)) /\
+                KV.Proofs.WaveCircuit.predicts w (cexec (build_ops c false) e8 l0).
+Proof. exact KV.Proofs.WaveSimGlue.wavesim_model_predicted. Qed.
